@@ -15,6 +15,7 @@ import (
 	"math/rand"
 	"os"
 	"path/filepath"
+	"runtime"
 	"sort"
 	"strconv"
 	"strings"
@@ -782,5 +783,9 @@ func TestVerifEvm(t *testing.T) {
 	for i := 0; i < nWs && g.stuck < 3; i++ {
 		g.wsCase(t, i)
 	}
-	t.Logf("evm harness: %d lines, stuck cases %d", g.lines, g.stuck)
+	if os.Getenv("VERIF_EVM_DUMP") != "" {
+		buf := make([]byte, 64<<20)
+		os.WriteFile(os.Getenv("VERIF_EVM_DUMP"), buf[:runtime.Stack(buf, true)], 0644)
+	}
+	t.Logf("evm harness: %d lines, stuck cases %d, goroutines at end %d, poller flushes %d (%d stack dumps)", g.lines, g.stuck, runtime.NumGoroutine(), vFlushes, vDumps)
 }
